@@ -76,6 +76,9 @@ def check(run, prog):
     from .. import structural
     structural.report(ck, prog, "R4", [f for f in prog.all_functions if f.module in SCOPE and f.kind not in ("nested", "lambda")], "pulsarbat (laziness scope)")
     fft_chunk_discipline(ck, prog, "R2")
+    # out=/in-place forms: the Dask-backed target ends up as the NumPy-backed one would (same dtype, or the same refusal)
+    from .c17 import dask_out_rule
+    dask_out_rule(ck, prog, "R2")
     run.extra["decided_by"] = ck.how
 
 
